@@ -47,13 +47,27 @@ fn check_diagram(run: &Run, name: &str, d: &Diagram, labelname: &str, label: &(d
         let w = l.writhe();
         let edges: BTreeSet<usize> = l.edges().into_iter().collect();
         let circ: Vec<usize> = (0..(1u32 << n)).map(|s| l.resolved_by(&state_of(s, n)).components().len()).collect();
+        // stepwise resolution: smoothing crossing i first and the remaining crossings afterwards
+        // (a diagram that already contains a smoothed crossing followed by actual ones)
+        let mut step: Vec<(usize, u32, u32, usize, usize)> = vec![]; // (i, b, s1, crossings left after the first step, circles)
+        if n >= 1 && n <= 4 {
+            for i in 0..n {
+                for b in 0..2u32 {
+                    let l1 = l.resolved_at(i, if b == 1 { yui::bitseq::Bit::Bit1 } else { yui::bitseq::Bit::Bit0 });
+                    for s1 in 0..(1u32 << (n - 1)) {
+                        let c = l1.resolved_by(&state_of(s1, n - 1)).components().len();
+                        step.push((i, b, s1, l1.crossing_num(), c));
+                    }
+                }
+            }
+        }
         let ori = l.ori_pres_state();
         let seifert = l.seifert_circles().len();
         let m = l.mirror();
         let msigns: Vec<i64> = m.crossing_signs().iter().map(|s| if s.is_positive() { 1 } else { -1 }).collect();
-        (comps, signs, np, nn, w, edges, circ, ori, seifert, msigns, m.writhe(), l.crossing_num(), l.is_knot())
+        (comps, signs, np, nn, w, edges, circ, ori, seifert, msigns, m.writhe(), l.crossing_num(), l.is_knot(), step)
     });
-    let (comps, signs, np, nn, w, edges, circ, ori, seifert, msigns, mw, cn, is_knot) = match r {
+    let (comps, signs, np, nn, w, edges, circ, ori, seifert, msigns, mw, cn, is_knot, step) = match r {
         Ok(x) => x,
         Err(p) => {
             run.fail(&key, &format!("panicked: {p}"), detail());
@@ -109,6 +123,14 @@ fn check_diagram(run: &Run, name: &str, d: &Diagram, labelname: &str, label: &(d
         let (_, r) = d.circles(s);
         if circ[s as usize] != r {
             fail(format!("resolution {s:b}: {} circles, expected {r}", circ[s as usize]));
+        }
+    }
+    for (i, b, s1, left, c) in step {
+        // the full state: bits of s1 below position i, b at position i, the rest of s1 above
+        let full = (s1 & ((1u32 << i) - 1)) | (b << i) | ((s1 >> i) << (i + 1));
+        let want = d.circles(full).1;
+        if left != n - 1 || c != want {
+            fail(format!("resolved_at({i},{b}) then resolved_by({s1:b}): {left} crossings left after the first step, {c} circles at the end; expected {} and {want} (= resolution {full:b})", n - 1));
         }
     }
     // Seifert circles = circles of the orientation preserving state for the orientation the library chose
